@@ -38,7 +38,11 @@
 (*         verdict (demanded of inputs that set every singular target      *)
 (*         once, so that the message holds exactly the given values);      *)
 (*   same  every observation (verdicts, deterministic bytes, size, JSON,   *)
-(*         text) of the original equals that of the translation.           *)
+(*         text) of the original equals that of the translation;           *)
+(*   agdec, agenc, bgdec, bgenc   the same verdicts when the input message *)
+(*         is an options message of descriptor.proto, observed on its      *)
+(*         generated Go type (extensions of option messages are what a     *)
+(*         proto3 file can declare).                                       *)
 (***************************************************************************)
 EXTENDS SchemaValid, SchemaViews, VUtf8
 
@@ -130,14 +134,20 @@ SetOnce(g, tgt, items) ==
         ELSE IF ia.j = ib.j THEN xa.label = 3
         ELSE ia.x \/ xa.oneof = 0 \/ xa.oneof # xb.oneof
 
+\* an options message of descriptor.proto exists as a generated Go type as well: its table-driven codec is observed besides
+\* the dynamic message (keys ag*, bg*), with the same demands
+DescriptorPath == "google/protobuf/descriptor.proto"
 XlateExpect(e) ==
   LET f == e.file
       g == e.xfile
       oka == InputOK(f, e.tgt, e.items)
       okb == InputOK(g, e.tgt, e.items)
       once == SetOnce(f, e.tgt, e.items)
-      base == [built |-> TRUE, same |-> TRUE, adec |-> oka, bdec |-> okb]
-  IN IF once THEN base @@ [aenc |-> oka, benc |-> okb] ELSE base
+      gen == ~e.tgt.loc /\ f.imps[e.tgt.i].file = DescriptorPath
+      keys == {"built", "same", "adec", "bdec"} \cup (IF once THEN {"aenc", "benc"} ELSE {})
+              \cup (IF gen THEN {"agdec", "bgdec"} ELSE {}) \cup (IF gen /\ once THEN {"agenc", "bgenc"} ELSE {})
+  IN [k \in keys |-> IF k \in {"built", "same"} THEN TRUE
+                     ELSE IF k \in {"adec", "aenc", "agdec", "agenc"} THEN oka ELSE okb]
 
 \* a recorded xlate event: the property's premise (a valid proto2 / proto3 file), and what the generator owes the
 \* specification (the pair is the translation, the input is made of string occurrences of the input message)
